@@ -75,6 +75,9 @@ DomNode *build(const std::string &name, const char *type, const std::vector<std:
 
 void resetAcls()
 {
+    // squid.conf default "configuration_includes_quoted_values off" (what default_all() sets before parsing)
+    ConfigParser::RecognizeQuotedValues = false;
+    ConfigParser::StrictMode = false;
     if (Config.namedAcls) Acl::FreeNamedAcls(&Config.namedAcls);
 }
 
@@ -393,7 +396,12 @@ vp::Verdict checkE(const ECase &c, vp::Ctx &ctx)
     static std::set<long> seen;
     resetAcls();
     if (c.u < 0 || c.u >= NU || c.i < 0 || c.i >= UN || c.j < 0 || c.j >= UN || c.k < 0 || c.k >= UN) { ctx.excluded("malformed case"); return vp::pass(); }
-    if (seen.insert(((c.u * 100L + c.i) * 100 + c.j) * 100 + c.k).second && seen.size() == static_cast<size_t>(myChunks())) ctx.label("shard-enumeration-complete");
+    if (!seen.insert(((c.u * 100L + c.i) * 100 + c.j) * 100 + c.k).second) {
+        // the cyclic enumeration came round again: nothing new to learn in this process
+        ctx.excluded("chunk already enumerated by this process");
+        return vp::pass();
+    }
+    if (seen.size() == static_cast<size_t>(myChunks())) ctx.label("shard-enumeration-complete");
     ctx.nontrivial();
     ctx.label(std::string("universe-") + std::to_string(c.u));
     const auto &U = Universes[c.u];
